@@ -267,6 +267,25 @@ def svalsToE : List SVal → EVals
 
 def entryDecls (kc : Codec) (vty : FTy) : List FieldDecl := [.single 1 (.scalar kc) false, .single 2 vty false]
 
+/-- `opt.get_or_insert_with(Default::default)`. -/
+def optCur (s : Schema) (ty : FTy) : Slot → EVal
+  | .some v => v
+  | _ => defaultE s ty
+
+/-- the value the oneof `merge` continues from: the current one when the same variant is set,
+otherwise the variant type's default. -/
+def oneCur (s : Schema) (ty : FTy) (tag : Nat) : Slot → EVal
+  | .one t v => if t = tag then v else defaultE s ty
+  | _ => defaultE s ty
+
+def entry0 (s : Schema) (kc : Codec) (vty : FTy) : Slots :=
+  .cons (.req (.s kc.default)) (.cons (.req (defaultE s vty)) .nil)
+
+/-- the (key, value) pair the entry loop leaves behind. -/
+def entryResult : Slots → Option (SVal × EVal)
+  | .cons (.req (.s k)) (.cons (.req v) .nil) => some (k, v)
+  | _ => none
+
 /-- the `match tag` arm of one field. -/
 def mergeSlot (s : Schema) (recur : Recur) (d : FieldDecl) (cur : Slot) (tag : Nat) (wt : WireType) (bs : Bytes) :
     Out (Slot × Bytes) :=
@@ -279,9 +298,7 @@ def mergeSlot (s : Schema) (recur : Recur) (d : FieldDecl) (cur : Slot) (tag : N
       | .err k => .err k | .panic e => .panic e | .fuel => .fuel
     | _ => .err .other                                   -- not a value of this struct (model only)
   | .single _ ty true =>
-    -- `get_or_insert_with(Default::default)`
-    let v := match cur with | .some v => v | _ => defaultE s ty
-    match mergeE s recur ty v wt bs with
+    match mergeE s recur ty (optCur s ty cur) wt bs with
     | .ok (v', r) => .ok (.some v', r)
     | .err k => .err k | .panic e => .panic e | .fuel => .fuel
   | .rep _ ty =>
@@ -308,10 +325,11 @@ def mergeSlot (s : Schema) (recur : Recur) (d : FieldDecl) (cur : Slot) (tag : N
       match recur with
       | none => .err .depth
       | some rec =>
-        let entry0 : Slots := .cons (.req (.s kc.default)) (.cons (.req (defaultE s vty)) .nil)
-        match mergeLoop (fieldStep rec (entryDecls kc vty)) entry0 bs with
-        | .ok (.cons (.req (.s k)) (.cons (.req v) .nil), r) => .ok (.map (kvs.insert k v), r)
-        | .ok _ => .err .other
+        match mergeLoop (fieldStep rec (entryDecls kc vty)) (entry0 s kc vty) bs with
+        | .ok (e, r) =>
+          match entryResult e with
+          | some (k, v) => .ok (.map (kvs.insert k v), r)     -- `values.insert(key, val)`
+          | none => .err .other                               -- (model only)
         | .err k => .err k | .panic e => .panic e | .fuel => .fuel
     | _ => .err .other
   | .oneof vs =>
@@ -319,10 +337,7 @@ def mergeSlot (s : Schema) (recur : Recur) (d : FieldDecl) (cur : Slot) (tag : N
     match lookupVariant vs tag with
     | none => .panic "unreachable!(invalid oneof tag)"
     | some ty =>
-      let v := match cur with
-        | .one t v => if t = tag then v else defaultE s ty
-        | _ => defaultE s ty
-      match mergeE s recur ty v wt bs with
+      match mergeE s recur ty (oneCur s ty tag cur) wt bs with
       | .ok (v', r) => .ok (.one tag v', r)
       | .err k => .err k | .panic e => .panic e | .fuel => .fuel
 
